@@ -199,7 +199,8 @@ def name_program(rng, i, tid, shared_pids=False):
         elif k < 0.70:
             s.syscall('BSC_getpid', tid, [0, 0, 0, 0], [0, rng.randrange(1000), 0, 0])
         elif k < 0.78:
-            s.syscall('BSC_open', tid, [1, 2, 3, 4], [0, 3, 0, 0], [('/p%d/%d' % (i, rng.randrange(99)), 7 + i)])
+            s.syscall('BSC_open', tid, [1, 2, 3, 4], [0, 3, 0, 0],
+                      [('/p%d/%d' % (i, rng.randrange(99)) + 'x' * rng.choice([0, 0, 30, 70]), 7 + i)])
         elif k < 0.84:
             s.gstring(tid, rng.randrange(0, 4), 'g%d_%d' % (i, rng.randrange(9)))
         elif k < 0.89:
@@ -210,7 +211,10 @@ def name_program(rng, i, tid, shared_pids=False):
             s.ev('TRACE_DATA_THREAD_TERMINATE', PL.NONE, tid, [rng.choice([tid, 1000, 1001, 5, 6, 7]), 0, 0, 0])
         else:                               # excluded handler: text reads global_strings of all threads
             s.syscall('DBG_DYLD_TIMING_DLOPEN', tid, [0, rng.randrange(0, 4), 0, 0], [0, 0x1000, 0, 0])
-    return s.recs
+    recs = list(s.recs)
+    if len(recs) > 1 and rng.random() < 0.3:           # a lost record: an operation of this thread stays incomplete
+        del recs[rng.randrange(len(recs))]              # (an unclosed lookup chain, a pair without its second half, ...)
+    return recs
 
 
 def names_case(programs, sched, kind, group, stream):
@@ -387,7 +391,8 @@ def names_oracle(case, got):
 NAMES_RULE = ('3 hand-written two-thread program sets (new-thread pairs, exec pairs, a name string without data record) — '
               'the first case is the 4-event adversarial schedule A-data, B-data, A-string, B-string — plus seeded sets of '
               '2-3 threads, each program holding new-thread / exec pairs (data + string, sometimes only one of them; pids of '
-              'the thread\'s own range), syscalls with lookups, global strings, thread names, sampler windows, thread-terminate '
+              'the thread\'s own range), syscalls with one- to three-record lookups, global strings, thread names, sampler windows, '
+              'in three programs of ten one record lost (an operation of that thread stays incomplete), thread-terminate '
               'and dlopen records (the excluded handlers), merged under adversarial (round-robin), sequential, reverse, '
               'bursty, longest-first and random schedules; real TracesParser with a recording pids_names dict; compared with '
               'the Lean model: every trace (name, ktraces, text, payload), the four tables and the pids_names assignments '
